@@ -37,7 +37,16 @@ var (
 	modDir    = flag.String("iotago", "", "directory of github.com/iotaledger/iota.go (default: module cache, version from go.mod)")
 )
 
+// extractFailure is what die panics with while a generator runs (runGenerators): the failure is confined to the files of
+// that generator, which are replaced by stubs that do not compile, and the other files are still regenerated
+type extractFailure struct{ msg string }
+
+var inGenerator bool
+
 func die(format string, a ...interface{}) {
+	if inGenerator {
+		panic(extractFailure{fmt.Sprintf(format, a...)})
+	}
 	fmt.Fprintf(os.Stderr, "extract: "+format+"\n", a...)
 	os.Exit(2)
 }
@@ -1008,17 +1017,111 @@ func (p *pkg) method(name string) *ast.FuncDecl {
 	return nil
 }
 
+// write queues the file; runGenerators puts the files of a generator on disk only when the whole generator succeeded
 func (g *genFile) write() {
 	g.b.WriteString("\nend Iota.Gen." + g.name + "\n")
-	path := filepath.Join(*out, g.name+".lean")
+	pendingFiles = append(pendingFiles, [2]string{g.name, g.b.String()})
+}
+
+var pendingFiles [][2]string
+
+func putFile(name, text string) {
+	path := filepath.Join(*out, name+".lean")
 	old, err := os.ReadFile(path)
-	if err == nil && string(old) == g.b.String() {
+	if err == nil && string(old) == text {
 		return // unchanged: keep mtime so lake does not rebuild
 	}
-	if err := os.WriteFile(path, []byte(g.b.String()), 0o644); err != nil {
-		die("write %s: %v", path, err)
+	if err := os.WriteFile(path, []byte(text), 0o644); err != nil {
+		fmt.Fprintf(os.Stderr, "extract: write %s: %v\n", path, err)
+		os.Exit(2)
 	}
 	fmt.Println("extract: updated", path)
+}
+
+// the generators and the files each one writes.  A generator that fails (a function left the translated subset, a
+// declaration disappeared, the package does not type-check …) must not leave the files of an EARLIER tree behind, which
+// the proofs and the gen.* ops of the correspondence run would then take for the current code: its files are replaced by
+// a stub whose only command fails, so every tie that imports it stops checking, with the extractor's message.
+var generators = []struct {
+	name  string
+	files []string
+	run   func()
+}{
+	{"b1t6", []string{"B1T6"}, genB1T6},
+	{"bip32path", []string{"Bip32Path"}, genBip32Path},
+	{"merkle", []string{"Merkle"}, genMerkle},
+	{"bech32", []string{"Bech32"}, genBech32},
+	{"bip39", []string{"Bip39"}, genBip39},
+	{"curl", []string{"Curl", "CurlAsm"}, genCurl},
+	{"pow", []string{"Pow"}, genPow},
+	{"address", []string{"Address"}, genAddress},
+	{"slip10", []string{"Slip10", "Secp256k1"}, genSlip10},
+	{"ed", []string{"Ed"}, genEd},
+	{"deps", []string{"Deps"}, genDeps},
+}
+
+func leanStringLit(s string) string {
+	var b strings.Builder
+	b.WriteByte('"')
+	for _, r := range s {
+		switch {
+		case r == '"' || r == '\\':
+			b.WriteByte('\\')
+			b.WriteRune(r)
+		case r == '\n':
+			b.WriteString("\\n")
+		case r < 0x20 || r > 0x7e:
+			b.WriteByte('?')
+		default:
+			b.WriteRune(r)
+		}
+	}
+	b.WriteByte('"')
+	return b.String()
+}
+
+func runGenerators() (failed int) {
+	for _, gen := range generators {
+		pendingFiles = nil
+		msg := func() (msg string) {
+			inGenerator = true
+			defer func() {
+				inGenerator = false
+				if r := recover(); r != nil {
+					f, ok := r.(extractFailure)
+					if !ok {
+						panic(r)
+					}
+					msg = f.msg
+				}
+			}()
+			gen.run()
+			return ""
+		}()
+		if msg == "" {
+			written := map[string]bool{}
+			for _, f := range pendingFiles {
+				putFile(f[0], f[1])
+				written[f[0]] = true
+			}
+			for _, f := range gen.files {
+				if !written[f] {
+					fmt.Fprintf(os.Stderr, "extract: generator %s did not write %s.lean\n", gen.name, f)
+					os.Exit(2)
+				}
+			}
+			continue
+		}
+		failed++
+		for _, f := range gen.files {
+			fmt.Fprintf(os.Stderr, "extract: FAILED %s: %s\n", f, msg)
+			putFile(f, "-- EXTRACTION FAILED: this file could not be regenerated from the current source tree.\n"+
+				"-- Nothing that imports it checks until the extractor accepts the source again (or is extended).\n"+
+				"#eval show IO Unit from throw (IO.userError "+leanStringLit("extraction failed ("+gen.name+"): "+msg)+")\n")
+		}
+	}
+	pendingFiles = nil
+	return failed
 }
 
 func boolLean(b bool) string {
@@ -1048,15 +1151,9 @@ func main() {
 	if err := os.MkdirAll(*out, 0o755); err != nil {
 		die("%v", err)
 	}
-	genB1T6()
-	genBip32Path()
-	genMerkle()
-	genBech32()
-	genBip39()
-	genCurl()
-	genPow()
-	genMisc()
-	genDeps()
+	if n := runGenerators(); n > 0 {
+		os.Exit(2)
+	}
 	if *expectOut != "" {
 		var b strings.Builder
 		b.WriteString("-- Snapshot of the source text the hand-written models were written from.\n")
